@@ -182,7 +182,19 @@ func candidateOf(name string) string {
 	return name
 }
 
-func runEndorse(head map[string][]byte, img []byte, candidate string, overwrite, snapshot, keepGoing bool) (*World, string, string) {
+// reuseCtx, when set, is the request object of the previous run of the same driver: a caller may
+// keep one endorse.Context and change its fields between runs (in-memory walks do)
+func runEndorse(head map[string][]byte, img []byte, candidate string, overwrite, snapshot, keepGoing bool, opt ...any) (*World, string, string) {
+	dry := false
+	var reuse **endorse.Context
+	for _, o := range opt {
+		switch v := o.(type) {
+		case bool:
+			dry = v
+		case **endorse.Context:
+			reuse = v
+		}
+	}
 	candidate = candidateOf(candidate)
 	w := &World{Root: root, OutDir: outDir, Head: copyMap(head), D: passDecider{}}
 	ca, signer, err := fx.DevAuthority()
@@ -190,7 +202,17 @@ func runEndorse(head map[string][]byte, img []byte, candidate string, overwrite,
 		return w, "infra", err.Error()
 	}
 	kc := &keys.Context{CA: ca, Signer: signer, Random: fx.NewLockedRand(3)}
-	ectx := &endorse.Context{SevSnp: request(), Image: img, ClSpec: 12345, Timestamp: fx.DevNow, VCS: w, OutDir: outDir, CandidateName: candidate}
+	ectx := &endorse.Context{SevSnp: request(), ClSpec: 12345, Timestamp: fx.DevNow, OutDir: outDir}
+	if reuse != nil {
+		if *reuse != nil {
+			ectx = *reuse
+		}
+		*reuse = ectx
+	}
+	// (VirtualFirmware records ec.VCS in ec.VCSs on first use: a caller that hands the request a new
+	// backend sets both)
+	ectx.Image, ectx.VCS, ectx.VCSs, ectx.CandidateName, ectx.DryRun = img, w, nil, candidate, dry
+	ectx.SnapshotDir, ectx.ImageName = "", ""
 	if snapshot {
 		ectx.SnapshotDir = "snap"
 		ectx.ImageName = "fw.fd"
@@ -244,6 +266,13 @@ func checkStep(from map[string][]byte, w *World, ret string, act mAct, names, im
 	for p, old := range from {
 		if _, ok := w.Head[p]; !ok && len(old) > 0 {
 			add("file-removed", "file %s disappeared", p)
+		}
+	}
+	if act.Op == "dryrun" {
+		for p, b := range w.Head {
+			if !bytes.Equal(from[p], b) {
+				add("dry-run-changed-head", "a dry run changed %s", p)
+			}
 		}
 	}
 	if act.Op == "snapshot" {
@@ -308,7 +337,7 @@ func RunC13(run *vk.Run) {
 			run.Infra(err)
 			return
 		}
-		w, ret, msg := runEndorse(from, poolImage(e.Act.Img), e.Act.Name, e.Act.Ow, e.Act.Op == "snapshot", e.Act.Kg)
+		w, ret, msg := runEndorse(from, poolImage(e.Act.Img), e.Act.Name, e.Act.Ow, e.Act.Op == "snapshot", e.Act.Kg, e.Act.Op == "dryrun")
 		if ret == "infra" {
 			run.Infra(fmt.Errorf("%s", msg))
 			return
@@ -357,18 +386,21 @@ func RunC13(run *vk.Run) {
 			defer os.RemoveAll(dir)
 		}
 		var hist []mAct
+		var shared *endorse.Context // the in-memory walks keep one request object for the whole walk
 		for s := 0; s < steps; s++ {
 			act := mAct{Op: "endorse", Img: wimgs[r.Intn(len(wimgs))], Name: wnames[r.Intn(len(wnames))], Ow: r.Intn(2) == 0, Kg: r.Intn(4) == 0}
 			if r.Intn(10) == 0 {
 				act.Op, act.Name = "snapshot", ""
+			} else if r.Intn(8) == 0 {
+				act.Op = "dryrun"
 			}
 			hist = append(hist, act)
 			var w *World
 			var ret, msg string
 			if useDisk {
-				w, ret, msg = runEndorseDisk(dir, poolImage(act.Img), act.Name, act.Ow, act.Op == "snapshot", act.Kg)
+				w, ret, msg = runEndorseDisk(dir, poolImage(act.Img), act.Name, act.Ow, act.Op == "snapshot", act.Kg, act.Op == "dryrun")
 			} else {
-				w, ret, msg = runEndorse(head, poolImage(act.Img), act.Name, act.Ow, act.Op == "snapshot", act.Kg)
+				w, ret, msg = runEndorse(head, poolImage(act.Img), act.Name, act.Ow, act.Op == "snapshot", act.Kg, act.Op == "dryrun", &shared)
 			}
 			if ret == "infra" {
 				run.Infra(fmt.Errorf("%s", msg))
@@ -387,7 +419,7 @@ func RunC13(run *vk.Run) {
 		}
 	})
 	run.Exhaustive = true
-	run.Rule = "every transition of the reachable closure of ManifestIndex.tla (pool of 3x3 quick / 4x4 thorough images x names x overwrite x keep-going, plus snapshot runs) is materialised as a real version-control head, one real endorse.VirtualFirmware run is made and the C13 predicates are evaluated on the projected result; plus seeded random walks over a 7x6 pool on the in-memory backend and on localnonvcs with real files; non-trivial = source manifest non-empty"
+	run.Rule = "every transition of the reachable closure of ManifestIndex.tla (pool of 3x3 quick / 4x4 thorough images x names x overwrite x keep-going, plus dry runs and snapshot runs) is materialised as a real version-control head, one real endorse.VirtualFirmware run is made and the C13 predicates are evaluated on the projected result; plus seeded random walks over a 7x6 pool on the in-memory backend and on localnonvcs with real files; non-trivial = source manifest non-empty"
 }
 
 func sameEntries(a, b []mEntry) bool {
@@ -399,14 +431,14 @@ func sameEntries(a, b []mEntry) bool {
 
 // runEndorseDisk runs endorse through testing/nonprod/localnonvcs on a real directory and returns a
 // World whose Head mirrors the directory afterwards (paths rebased to the in-memory root).
-func runEndorseDisk(dir string, img []byte, candidate string, overwrite, snapshot, keepGoing bool) (*World, string, string) {
+func runEndorseDisk(dir string, img []byte, candidate string, overwrite, snapshot, keepGoing bool, dry ...bool) (*World, string, string) {
 	candidate = candidateOf(candidate)
 	ca, signer, err := fx.DevAuthority()
 	if err != nil {
 		return nil, "infra", err.Error()
 	}
 	kc := &keys.Context{CA: ca, Signer: signer, Random: fx.NewLockedRand(3)}
-	ectx := &endorse.Context{SevSnp: request(), Image: img, ClSpec: 12345, Timestamp: fx.DevNow, VCS: &localnonvcs.T{Root: dir}, OutDir: outDir, CandidateName: candidate}
+	ectx := &endorse.Context{SevSnp: request(), Image: img, ClSpec: 12345, Timestamp: fx.DevNow, VCS: &localnonvcs.T{Root: dir}, OutDir: outDir, CandidateName: candidate, DryRun: len(dry) > 0 && dry[0]}
 	if snapshot {
 		ectx.SnapshotDir = "snap"
 		ectx.ImageName = "fw.fd"
